@@ -152,6 +152,16 @@ class Worker:
             return ""
 
 
+def _function_name(sig):
+    """qualified function name of a symbolised frame: template arguments removed, token before the first '('"""
+    prev = None
+    while prev != sig:
+        prev = sig
+        sig = re.sub(r"<[^<>]*>", "", sig)
+    head = sig.split("(", 1)[0].strip()
+    return head.split()[-1] if head else ""
+
+
 def classify_crash(text, rc):
     """Classifier tags for a crashed worker: report kind + first Clipper2Lib frame."""
     kind = "signal_%s" % (-rc if rc is not None and rc < 0 else rc)
@@ -159,8 +169,17 @@ def classify_crash(text, rc):
     if m:
         kind = "asan_" + m.group(1)
     elif "runtime error:" in text:
-        m2 = re.search(r"runtime error: ([^\n]{0,60})", text)
-        kind = "ubsan_" + re.sub(r"[^a-z]+", "_", (m2.group(1) if m2 else "x").lower())[:40].strip("_")
+        m2 = re.search(r"runtime error: ([^\n]{0,120})", text)
+        msg = (m2.group(1) if m2 else "x").lower()
+        for pat, name in (("outside the range of representable", "float_cast_overflow"), ("signed integer overflow", "signed_integer_overflow"),
+                          ("reference binding to null", "null_reference"), ("null pointer", "null_pointer"), ("misaligned", "misaligned"),
+                          ("out of bounds", "out_of_bounds"), ("shift exponent", "shift"), ("division by zero", "division_by_zero"),
+                          ("not a valid value for type", "invalid_enum_or_bool"), ("negation of", "negation_overflow")):
+            if pat in msg:
+                kind = "ubsan_" + name
+                break
+        else:
+            kind = "ubsan_" + re.sub(r"[^a-z]+", "_", msg)[:40].strip("_")
     elif "LeakSanitizer" in text:
         kind = "lsan_leak"
     elif "ThreadSanitizer" in text:
@@ -178,16 +197,11 @@ def classify_crash(text, rc):
     if mv and kind.startswith("signal_"):
         kind = "valgrind_" + re.sub(r"[^a-z]+", "_", mv.group(1).lower()).strip("_")[:40]
     frame = "noframe"
-    for m in re.finditer(r"==\d+==\s+(?:at|by) 0x[0-9A-Fa-f]+: ([^\n]+)", text):
-        fm = re.match(r"(?:[\w:<>,*& ]+ )?Clipper2Lib::([\w:~]+)", m.group(1))
-        if fm and not m.group(1).startswith("std::"):
-            frame = fm.group(1)
-            break
-    for m in re.finditer(r"#\d+ 0x[0-9a-f]+ in ([^\n]+)", text):
-        fm = re.match(r"(?:[\w:<>,*& ]+ )?Clipper2Lib::([\w:~]+)", m.group(1))
-        if fm and not m.group(1).startswith("std::"):
-            if frame == "noframe":
-                frame = fm.group(1)
+    for m in list(re.finditer(r"==\d+==\s+(?:at|by) 0x[0-9A-Fa-f]+: ([^\n]+)", text)) + \
+            list(re.finditer(r"#\d+ 0x[0-9a-f]+ in ([^\n]+)", text)):
+        fn = _function_name(m.group(1))
+        if fn.startswith("Clipper2Lib::"):
+            frame = fn[len("Clipper2Lib::"):]
             break
     return [kind, "frame_" + frame, kind + "@" + frame]
 
@@ -485,7 +499,7 @@ def run_property(prop, tier, seed, replay=None):
             print("VIOLATION property=%s replay=%s claim=%s tags=%s %s" % (prop, wit, claim, ",".join(tags), detail[:400]))
         if len(viol_lines) > printed:
             print("(%d further violations not printed; classes: %s)" % (len(viol_lines) - printed,
-                  "; ".join("%s[%s] x%d" % (k[0], ",".join(k[1]), n) for k, n in sorted(seen.items(), key=lambda kv: -kv[1])[:8])))
+                  "; ".join("%s[%s] x%d" % (k[0], ",".join(k[1]), n) for k, n in sorted(seen.items(), key=lambda kv: -kv[1])[:60])))
 
         floor = pdef.get("floor", {}).get(tier, 2)
         if len(distinct) < floor and not viol_lines:
